@@ -5,9 +5,12 @@ import (
 	"context"
 	"errors"
 	"fmt"
+	"net"
 	"net/http"
+	"os"
 	"strings"
 	"sync"
+	"sync/atomic"
 	"testing"
 	"time"
 
@@ -30,6 +33,12 @@ type Script struct {
 	Trigger string         `json:"trigger"` // cancel, cancel-twice, early, http-close
 	HoldMs  int64          `json:"hold_ms"` // how long the backend holds in-flight responses
 	PostMs  []int64        `json:"post_ms"` // connection attempts this long after the cancel
+	// AcceptDelayMs: the HTTP/1.1 server's ConnState hook (user code, called on the accept loop) takes this
+	// long for every new connection. Burst: this many more HTTP/1.1 clients complete their handshakes
+	// right before the cancel, after everything else has settled: with a slow accept loop they are still
+	// waiting to be handed to the HTTP/1.1 server when the context is cancelled.
+	AcceptDelayMs int64 `json:"accept_delay_ms"`
+	Burst         int   `json:"burst"`
 }
 
 var col = vstat.New("C17", "c17.shutdown")
@@ -49,6 +58,10 @@ func gen(t *rapid.T) Script {
 		}
 		s.Conns = append(s.Conns, c)
 	}
+	if s.Trigger == "cancel" || s.Trigger == "cancel-twice" {
+		s.AcceptDelayMs = rapid.SampledFrom([]int64{0, 0, 30, 1500}).Draw(t, "acceptDelay")
+		s.Burst = rapid.SampledFrom([]int{0, 0, 1, 2, 5, 12}).Draw(t, "burst")
+	}
 	s.PostMs = rapid.SliceOfN(rapid.SampledFrom([]int64{0, 1, 100, 900, 4000, 6500, 40000}), 1, 4).Draw(t, "post")
 	return s
 }
@@ -67,7 +80,17 @@ func exec(t *testing.T, s Script) *vstat.Violation {
 		if s.Trigger == "early" {
 			baseCancel()
 		}
-		p := rig.StartProxy(rig.ProxyOpts{IdleTimeout: time.Hour, TLSHandshakeTimeout: time.Hour, BackendRespond: respond, Ctx: base,
+		acceptDelay := time.Duration(s.AcceptDelayMs) * time.Millisecond
+		var connState func(net.Conn, http.ConnState)
+		var slow atomic.Bool // (only the burst meets the slow hook: the other connections are to be in their planned states at the cancel)
+		if acceptDelay > 0 {
+			connState = func(c net.Conn, st http.ConnState) {
+				if st == http.StateNew && slow.Load() {
+					time.Sleep(acceptDelay)
+				}
+			}
+		}
+		p := rig.StartProxy(rig.ProxyOpts{IdleTimeout: time.Hour, TLSHandshakeTimeout: time.Hour, BackendRespond: respond, Ctx: base, ConnState: connState,
 			// an exchange that really stays in flight: the handler itself is slow and does not watch the
 			// request context (the reverse proxy alone would abort at once, its context being cancelled)
 			WrapHandler: func(next http.Handler) http.Handler {
@@ -117,6 +140,17 @@ func exec(t *testing.T, s Script) *vstat.Violation {
 			runs = append(runs, r)
 		}
 		rig.Wait()
+		slow.Store(true)
+		var burst []*rig.ClientRun
+		for i := 0; i < s.Burst; i++ {
+			r, err := rig.StartClient(p, rig.ConnPlan{Kind: "serve", ALPN: "http/1.1", NReq: 0, Limit: -1}, nil, fmt.Sprintf("burst%d", i))
+			if err != nil {
+				viol = vstat.Violf("harness|dial", "%v", err)
+				return
+			}
+			burst = append(burst, r)
+		}
+		rig.Wait()
 		t0 := time.Now()
 		switch s.Trigger {
 		case "cancel":
@@ -128,7 +162,7 @@ func exec(t *testing.T, s Script) *vstat.Violation {
 			// already cancelled before Serve started
 		case "http-close":
 			// the internal path: the net/http server stops on its own
-			go p.Srv.HTTPServer.Shutdown(context.Background())
+			go p.Srv.HTTPServer.Shutdown(base)
 		}
 		// connection attempts after the cancel
 		var pmu sync.Mutex
@@ -191,7 +225,7 @@ func exec(t *testing.T, s Script) *vstat.Violation {
 		lower := time.Duration(0)
 		// "within seconds": net/http's Shutdown closes never-used connections after 5 s and polls with
 		// a back-off of up to 500 ms (plus jitter), possibly twice in a row here
-		upper := 10 * time.Second
+		upper := 10*time.Second + 2*acceptDelay
 		if inflightH1 > 0 {
 			lower = hold
 			if hold+2*time.Second > upper {
@@ -231,14 +265,31 @@ func exec(t *testing.T, s Script) *vstat.Violation {
 				}
 			}
 		}
-		for _, r := range runs {
+		if viol == nil {
+			for i, r := range burst {
+				if r.Server.Closes.Load() == 0 {
+					viol = vstat.Violf("shutdown|handed-over-connection-left-open", "%s: HTTP/1.1 connection %d of a burst of %d that completed their handshakes right before the cancel (accept hook takes %v per connection) is still open after Serve returned: nothing serves it and nothing closes it", workload, i, len(burst), acceptDelay)
+					break
+				}
+			}
+		}
+		for _, r := range append(runs, burst...) {
 			r.Finish()
 			r.Raw.Close()
 		}
 		rig.Wait()
+		// teardown: let held HTTP/2 handlers (which shutdown does not wait for) run out before the backend goes away
+		time.Sleep(hold + time.Second)
+		baseCancel()
+		rig.Wait()
 		p.Transport.CloseIdleConnections()
 		p.Backend.Close()
 		rig.Wait()
+		if os.Getenv("VERIF_DEBUG_LEAK") != "" {
+			for _, g := range rig.BubbleGoroutines() {
+				fmt.Fprintf(os.Stderr, "LEAK %+v\n%s\n", s, g)
+			}
+		}
 		kinds := map[string]bool{}
 		for _, c := range s.Conns {
 			kinds[c.Kind] = true
@@ -247,11 +298,17 @@ func exec(t *testing.T, s Script) *vstat.Violation {
 			classes = append(classes, "at-cancel:"+k)
 		}
 		classes = append(classes, "trigger:"+s.Trigger)
+		if acceptDelay > 0 && s.Burst >= 2 {
+			classes = append(classes, "handshakes-done-but-not-yet-accepted-at-cancel")
+		}
 	})
 	if viol != nil {
 		return viol
 	}
 	if msg != "" {
+		if os.Getenv("VERIF_DEBUG_LEAK") != "" {
+			fmt.Fprintf(os.Stderr, "LEAKMSG %+v\n%s\n", s, msg)
+		}
 		col.Class("discard:bubble:"+msg[:min(40, len(msg))], 1)
 		col.Discard()
 		return nil
@@ -268,6 +325,6 @@ func exec(t *testing.T, s Script) *vstat.Violation {
 
 func TestShutdown(t *testing.T) {
 	rig.Certs()
-	col.Mandatory("at-cancel:mid-handshake", "at-cancel:h1-idle", "at-cancel:h1-new", "at-cancel:h1-inflight", "at-cancel:h2-idle", "at-cancel:h2-inflight", "trigger:cancel", "trigger:cancel-twice", "trigger:early", "trigger:http-close")
+	col.Mandatory("at-cancel:mid-handshake", "at-cancel:h1-idle", "at-cancel:h1-new", "at-cancel:h1-inflight", "at-cancel:h2-idle", "at-cancel:h2-inflight", "handshakes-done-but-not-yet-accepted-at-cancel", "trigger:cancel", "trigger:cancel-twice", "trigger:early", "trigger:http-close")
 	vstat.Run(t, vstat.Spec[Script]{Col: col, Quick: 1200, Thorough: 30000, Gen: gen, Exec: func(s Script) *vstat.Violation { return exec(t, s) }})
 }
